@@ -11,6 +11,9 @@ def generate(G):
 
     G.ob("c18_model_release", "C18", "model_release", "c18::model_release(s)", unwind=8, tier="quick", heavy=False,
          skeleton={"what": "Model[Dense(1->1)]: forward, backward, caller drops the output, forward again: the first batch and target are sole owners"})
+    for n, tier in ((1, "quick"), (2, "thorough")):
+        G.ob("c18_update_release_%d" % n, "C18", "update_release", "c18::update_release(s, %d)" % n, unwind=6, tier=tier,
+             skeleton={"what": "forward, backward, result dropped, GradientDescent::update, %d time(s): a kept handle on the first parameter is the sole owner" % n})
     two = [L([2]), L([2])]
     rel("mul_nopass", "Mul", two, 0, False, "quick")
     rel("mul_pass", "Mul", two, 1, False, "quick")
@@ -20,6 +23,8 @@ def generate(G):
     rel("muladdshare_twice_keep", "MulAddShare", two, 2, True, "quick")
     rel("square_pass", "Square", [L([2])], 1, True, "quick")
     rel("bcast_pass", "Mul", [L([2]), L([2, 2], "D2")], 1, False, "quick", unwind=8)
+    rel("exp_pass", "Exp", [L([2])], 1, False, "quick", stubs=("exp",))
+    rel("div_pass", "Div", [L([2]), L([2], "Pos")], 1, False, "thorough", stubs=("powf",))
     rel("untracked_leaf", "MulAddShare", [L([2]), L([2], tracked=False)], 1, False, "quick")
     rel("all_untracked", "MulAddShare", [L([2], tracked=False), L([2], tracked=False)], 0, False, "thorough")
     rel("chain5_pass", "Chain5", two, 1, False, "thorough", heavy=True)
